@@ -391,13 +391,29 @@ func C09(ctx *core.Ctx) {
 				}
 				if fc, isCall := CallValue(mu.Value); isCall && fc.FullName() == "strconv.FormatInt" {
 					radSet, _ = ssax.ConstInt(fc.Common.Args[1])
-					v := ssax.Strip(fc.Common.Args[0])
-					if cv, ok := v.(*ssa.Convert); ok {
-						v = ssax.Strip(cv.X)
+					// the encoded value is d/unit, possibly selected against clamping constants (φ)
+					seen := map[ssa.Value]bool{}
+					var walk func(v ssa.Value)
+					walk = func(v ssa.Value) {
+						v = ssax.Strip(v)
+						if seen[v] {
+							return
+						}
+						seen[v] = true
+						switch x := v.(type) {
+						case *ssa.Convert:
+							walk(x.X)
+						case *ssa.Phi:
+							for _, e := range x.Edges {
+								walk(e)
+							}
+						case *ssa.BinOp:
+							if x.Op == token.QUO && IsParam(x.X, st, 1) {
+								unitSet, _ = ssax.ConstInt(x.Y)
+							}
+						}
 					}
-					if bo, ok := v.(*ssa.BinOp); ok && bo.Op == token.QUO && IsParam(bo.X, st, 1) {
-						unitSet, _ = ssax.ConstInt(bo.Y)
-					}
+					walk(fc.Common.Args[0])
 				}
 			}
 		})
